@@ -357,10 +357,11 @@ def annotations_harness(a, kind):
                 if f in ('variables', 'constraints'):
                     nat = model.eval(nat, model_completion=True).as_long()
                 elif f in ('created', 'start', 'end'):
-                    secs = model.eval(nat.f[0], model_completion=True).as_long() % 4102444800
+                    tn = model.eval(nat.f[0], model_completion=True).as_long()
+                    secs, ns = (tn // 10 ** 9) % 4102444800, tn % 10 ** 9
                     import datetime
-                    nat = datetime.datetime.fromtimestamp(secs, datetime.timezone.utc).strftime('%Y-%m-%dT%H:%M:%S') + '.000000001+09:00'
-                    exp_created = (secs - 9 * 3600) * 10 ** 9 + 1
+                    nat = datetime.datetime.fromtimestamp(secs, datetime.timezone.utc).strftime('%Y-%m-%dT%H:%M:%S') + f'.{ns:09d}+09:00'
+                    exp_created = (secs - 9 * 3600) * 10 ** 9 + ns
                 elif f in ('instance', 'solver'):
                     nat = 'sha256:' + '%064x' % model.eval(nat.bv, model_completion=True).as_long()
                 sets.append([f, nat])
@@ -474,7 +475,7 @@ def build(chk):
                    'annotations set through the real setters; the requested digest and every layer digest are 64-bit solver variables constrained only by "equal iff the encoded bytes are equal"',
         'getters': 'get_instance / get_solution / get_parametric_instance / get_sample_set each for an arbitrary requested digest; get_instances, get_solutions, get_layer_descriptors for every media type',
         'manifest': 'artifact type absent / the OMMX type / four other media types',
-        'annotations': 'per annotation type: all fields set, none, each alone, each one missing, in two orders, with and without a user key; counts over all of u64, instants and digests as opaque solver-identified tokens, '
+        'annotations': 'per annotation type: all fields set, none, each alone, each one missing, in two orders, with and without a user key; counts over all of u64, instants as integer nanoseconds (solver variable), digests as solver-identified tokens, '
                        'strings from a small pool (empty, blank, comma, non-ascii), author lists [two names], [one], [""], []',
     }
     chk.assumptions += [
